@@ -229,6 +229,16 @@ Proof.
   intros R. unfold quiescent. rewrite (reach_settled c s R), andb_true_r. unfold is_nil. destruct (enabled_rel s); split; auto; discriminate.
 Qed.
 
+Lemma settle_adequate_all c s : reach c s ->
+  settle1 s = None
+  /\ (quiescent s = true <-> enabled_rel s = [])
+  /\ (forall l, In l (enabled_rel s) -> is_rel l = true /\ exists s' os, step s l = Some (s', os) /\ settle1 s' = None).
+Proof.
+  intros R. splits; [eapply reach_settled; eauto|eapply reach_quiescent_iff; eauto|].
+  intros l Hin. destruct (enabled_rel_step s l (i_crash _ (proj1 (inv1_reach c s R))) Hin) as (Hl & s' & os & E).
+  split; auto. exists s', os. split; auto. eapply settle_adequate; eauto.
+Qed.
+
 (* non-vacuity: a state (reached by a run from the initial state) with work for settle - the replies for a batch of two
    arrive in one delivery - is settled after the step: the caller took both values and returned *)
 Example settle_adequate_nonvacuous :
